@@ -122,6 +122,9 @@ structure File where
   nlink : Int := 0         -- 1 while the name exists in its directory
   nfd : Int := 0           -- open descriptors on the file
   dir : Nat := 0           -- upload dir index (temp files)
+  /-- ghost (proofs only, never read by the model): bytes accounted for by the
+      temp chunk that owns the file -/
+  tl : Int := 0
 
 /-- result of one write()/pwritev() call on a temp file -/
 inductive WFault where
@@ -153,9 +156,15 @@ def World.openFd (w : World) (fid : Nat) : World :=
   let f := w.files fid
   w.setFile fid { f with nfd := f.nfd + 1 }
 
-def World.unlink (w : World) (fid : Nat) : World :=
+/-- unlink() by the temp chunk that owns the file (`len` = c->file.length, ghost) -/
+def World.unlink (w : World) (fid len : Nat) : World :=
   let f := w.files fid
-  w.setFile fid { f with nlink := f.nlink - 1 }
+  w.setFile fid { f with nlink := f.nlink - 1, tl := f.tl - len }
+
+/-- ghost bookkeeping of a write through the owning temp chunk -/
+def World.addTl (w : World) (fid : Nat) (n : Int) : World :=
+  let f := w.files fid
+  w.setFile fid { f with tl := f.tl + n }
 
 /-- pwrite(fd, data, pos) -/
 def writeAt (content : Bytes) (pos : Nat) (data : Bytes) : Bytes :=
@@ -209,8 +218,8 @@ def release (w : World) : Chunk → World
     if cap = (w.cs ||| 1) then w
     else if cap > w.cs then pushOversized w cap
     else w
-  | .file fid _ _ isTemp fd =>
-    let w := if isTemp then w.unlink fid else w
+  | .file fid _ len isTemp fd =>
+    let w := if isTemp then w.unlink fid len else w
     if fd.isOpen then w.closeFd fid else w
 
 def releaseAll (w : World) : List Chunk → World
@@ -475,7 +484,7 @@ def World.addFile (w : World) (f : File) : World :=
     refers to ids >= nfiles: both counts are 0 before), name linked, one descriptor -/
 def createTemp (w : World) (dir : Nat) : World × Nat :=
   (w.addFile { content := [], nlink := (w.files w.nfiles).nlink + 1, nfd := (w.files w.nfiles).nfd + 1,
-               dir := dir }, w.nfiles)
+               dir := dir, tl := (w.files w.nfiles).tl }, w.nfiles)
 
 /-- the directory loop of chunkqueue_get_append_newtempfile() -/
 def mkstempDirs : Nat → World → Nat → World × Nat × Option Nat
@@ -556,7 +565,7 @@ def growLast (q : Cq) (n : Nat) : Cq :=
 /-- pwrite()/pwritev() of `d` at the end of the last (temp file) chunk -/
 def writeLast (w : World) (q : Cq) (d : Bytes) : World :=
   match q.chunks.getLast? with
-  | some (.file fid _ len _ _) => w.pwrite fid len d
+  | some (.file fid _ len t _) => (w.pwrite fid len d).addTl fid (if t then d.length else 0)
   | _ => w
 
 /-- the write loop of chunkqueue_append_mem_to_tempfile(); every turn but the
